@@ -31,7 +31,7 @@ from contracts.sysstub import Lin, SysStub, mat, patched
 from vk import kit as K
 from vk import loopcut, npshim
 from vk import sym as S
-from vk.registry import bounded, contract
+from vk.registry import bounded, contract, static
 
 LEVEL = "proof"
 TRUSTED = [
@@ -44,9 +44,9 @@ EXPLANATION = "symbolic native execution of the real projection steps (path fork
 SIZES = dict(nq=2, nu=2, nla_g=0, nla_gamma=0, nla_c=0, nla_tau=0, nla_N=1, nla_F=2)
 
 
-def _mk(k, module, cls, friction, **kw):
+def _mk(k, module, cls, friction, layout=None, **kw):
     lin, rec = Lin(k), _Rec()
-    sysm = SysStub(k, sizes=dict(SIZES), friction=friction, t0=0.0)
+    sysm = SysStub(k, sizes=dict(SIZES), friction=friction, t0=0.0, layout=layout)
     sysm.q_dot0 = S.symarray("qd0", sysm.nq)
     names = dict(bmat=lin.bmat, splu=lin.splu, warnings=_warnmod(rec), tqdm=_Pbar, SolverSummary=_Summary, print=lambda *a, **kw: None)
     names = {a: b for a, b in names.items() if hasattr(module, a) or a == "print"}
@@ -95,12 +95,15 @@ def _eqall(a, b):
     return S.conj([S._coerce(x) == S._coerce(y) for x, y in zip(np.atleast_1d(a), np.atleast_1d(b))])
 
 
-def _be_prox(friction):
+def _be_prox(friction, layout=None):
+    """layout = (0, 2): a frictionless contact assembled before the frictional one - the friction law must use ITS contact's normal percussion"""
+    ic = 0 if layout is None else len(layout) - 1
+
     def c(k):
         if not k.sym:
             raise K.Reject("symbolic only")
         k.covers(be.BackwardEuler.prox)
-        sysm, lin, rec, solver, ctx = _mk(k, be, be.BackwardEuler, friction)
+        sysm, lin, rec, solver, ctx = _mk(k, be, be.BackwardEuler, friction, layout=layout)
         try:
             with npshim.active(True), k.spec():
                 _havoc_state(solver, sysm, ("tn", "qn", "un"))
@@ -119,19 +122,21 @@ def _be_prox(friction):
                 _signorini(k, "BackwardEuler.prox (position level, gap g_N(t_n+1, q_n+1))", y1[:nN], gN, hypN)
                 if friction:
                     hyp = _eqall(y1, y0)
-                    _coulomb(k, "BackwardEuler.prox", y1[nN:], y1[0], sysm.mu, sysm.gamma_F(tn1, q1, u1), hyp, y0[nN:])
+                    _coulomb(k, "BackwardEuler.prox", y1[nN:], y1[ic], sysm.mus[ic], sysm.gamma_F(tn1, q1, u1), hyp, y0[nN:])
         finally:
             ctx.__exit__(None, None, None)
 
     return c
 
 
-def _rattle_prox(friction):
+def _rattle_prox(friction, layout=None):
+    ic = 0 if layout is None else len(layout) - 1
+
     def c(k):
         if not k.sym:
             raise K.Reject("symbolic only")
         k.covers(ra.Rattle.prox1, ra.Rattle.prox2)
-        sysm, lin, rec, solver, ctx = _mk(k, ra, ra.Rattle, friction)
+        sysm, lin, rec, solver, ctx = _mk(k, ra, ra.Rattle, friction, layout=layout)
         try:
             with npshim.active(True), k.spec():
                 _havoc_state(solver, sysm, ("tn", "qn", "un", "x1n", "y1n"))
@@ -149,7 +154,7 @@ def _rattle_prox(friction):
                 q1, u12 = x1[: sysm.nq], x1[sysm.nq : sysm.nq + sysm.nu]
                 _signorini(k, "Rattle.prox1 (position level, gap g_N(t_n+1, q_n+1))", y1p[:nN], sysm.g_N(tn1, q1), _eqall(y1p[:nN], y1[:nN]))
                 if friction:
-                    _coulomb(k, "Rattle.prox1", y1p[nN:], y1[0], sysm.mu, sysm.gamma_F(tn1, q1, u12), _eqall(y1p, y1), y1[nN:])
+                    _coulomb(k, "Rattle.prox1", y1p[nN:], y1[ic], sysm.mus[ic], sysm.gamma_F(tn1, q1, u12), _eqall(y1p, y1), y1[nN:])
                 # ---- stage 2 (velocity level); prox2 reads q_n+1 from self.x1n and the stage-1 percussions from self.y1n
                 x2 = S.symarray("x2", solver.nx2)
                 y2 = S.symarray("y2", solver.ny)
@@ -160,16 +165,16 @@ def _rattle_prox(friction):
                 P = solver.y1n + y2  # total percussion entering the projection
                 Pout = solver.y1n + y2p
                 hyp = _eqall(y2p[:nN], y2[:nN])
-                act = solver.I_N[0]
-                act = act if isinstance(act, S.SymBool) else S._cb(bool(act))
                 for i in range(nN):
+                    act = solver.I_N[i]
+                    act = act if isinstance(act, S.SymBool) else S._cb(bool(act))
                     k.prove(f"Rattle.prox2: contact closed in stage 1 and fixed point => P_N[{i}] >= 0", (act & hyp).implies(S._coerce(Pout[i]) >= 0))
                     k.prove(f"Rattle.prox2: closed and fixed point => xi_N[{i}] = g_N_dot(t_n+1,q_n+1,u_n+1) + e_N g_N_dot(t_n,q_n,u_n) >= 0", (act & hyp).implies(S._coerce(xiN[i]) >= 0))
                     k.prove(f"Rattle.prox2: closed and fixed point => P_N[{i}] xi_N[{i}] = 0", (act & hyp).implies(S._coerce(Pout[i] * xiN[i]) == 0))
                     k.prove(f"Rattle.prox2: contact not closed in stage 1 => total normal percussion P_N[{i}] = 0", (~act).implies(S._coerce(Pout[i]) == 0))
                 if friction:
                     xiF = sysm.e_F * sysm.gamma_F(tn, qn, un) + sysm.gamma_F(tn1, qn1, un1)
-                    _coulomb(k, "Rattle.prox2", Pout[nN:], P[0], sysm.mu, xiF, _eqall(y2p, y2), P[nN:])
+                    _coulomb(k, "Rattle.prox2", Pout[nN:], P[ic], sysm.mus[ic], xiF, _eqall(y2p, y2), P[nN:])
         finally:
             ctx.__exit__(None, None, None)
 
@@ -179,6 +184,10 @@ def _rattle_prox(friction):
 for _fr in (False, True):
     contract("C18", f"BackwardEuler.prox[friction={_fr}]", samples=0, replayable=False, timeout=90, max_paths=200, soft=("*fixed point with slip*", "*parallel to the slip*", "*opposes the slip*"))(_be_prox(_fr))
     contract("C18", f"Rattle.prox1-prox2[friction={_fr}]", samples=0, replayable=False, timeout=90, max_paths=400, soft=("*fixed point with slip*", "*parallel to the slip*", "*opposes the slip*"))(_rattle_prox(_fr))
+
+
+contract("C18", "BackwardEuler.prox[frictionless contact before a frictional one]", samples=0, replayable=False, timeout=90, max_paths=400, soft=("*fixed point with slip*", "*parallel to the slip*", "*opposes the slip*"))(_be_prox(True, layout=(0, 2)))
+contract("C18", "Rattle.prox1-prox2[frictionless contact before a frictional one]", samples=0, replayable=False, timeout=90, max_paths=1600, tiers=("thorough",), soft=("*fixed point with slip*", "*parallel to the slip*", "*opposes the slip*"))(_rattle_prox(True, layout=(0, 2)))
 
 
 # --------------------------------------------------------------------------- Moreau: fixed-point loop of step() cut
@@ -444,3 +453,54 @@ def b_scenes(tier, seed):
             seen.add(f["what"])
             out.append(f)
     return {"cases": cases, "distinct": cases, "failures": out[:12], "bound": f"{reps} random instances x 3 scenes (ball on plane with friction/restitution, two free spheres, two free spheres with e_N = 1) x 4 solvers x step sizes {dts}, horizon 0.6"}
+
+
+# --------------------------------------------------------------------------- several contacts: index bookkeeping
+@static("C18", "compute_I_F/exhaustive")
+def s_compute_I_F(tier):
+    from contracts.multicontact import exhaustive_compute_I_F
+
+    return exhaustive_compute_I_F(tier)
+
+
+def _moreau_prox_multi(layout, active):
+    """the real Moreau.prox on the active sets that the real compute_I_F produces for a system with several contacts:
+    every active friction law projects onto the disk of ITS OWN contact's normal percussion"""
+
+    def c(k):
+        if not k.sym:
+            raise K.Reject("symbolic only")
+        from cardillo.solver._base import compute_I_F
+
+        k.covers(mo.Moreau.prox, compute_I_F)
+        sysm = SysStub(k, sizes=dict(SIZES), friction=True, t0=0.0, layout=layout)
+        with npshim.active(True), k.spec():
+            I_N = np.array(active, dtype=int)
+            I_F, laws = compute_I_F(I_N, sysm)
+            solver = object.__new__(mo.Moreau)
+            nA, nFa, nu = len(I_N), len(I_F), sysm.nu
+            solver.dt = 0.25
+            solver.W_N, solver.W_F = S.symarray("WN", (nu, nA)), S.symarray("WF", (nu, nFa))
+            solver.xi_N0, solver.xi_F0 = S.symarray("xiN0", nA), S.symarray("xiF0", nFa)
+            solver.prox_r_N, solver.prox_r_F = S.symarray("rN", nA), S.symarray("rF", nFa)
+            _pos(k, solver.prox_r_N)
+            _pos(k, solver.prox_r_F)
+            solver.global_active_friction_laws = laws
+            un1, PN0, PF0 = S.symarray("un1", nu), S.symarray("PN", nA), S.symarray("PF", nFa)
+            PN, PF = solver.prox(un1, PN0.copy(), PF0.copy())
+            for j in range(nA):
+                k.prove_le(f"normal percussion of active contact {active[j]} >= 0", 0, PN[j])
+            f0 = 0
+            for c_idx, nf in enumerate(layout):
+                if nf and c_idx in active:
+                    jn = list(active).index(c_idx)  # position of the contact in the active set (specification side)
+                    pf = PF[f0 : f0 + nf]
+                    k.prove_le(f"friction percussion of contact {c_idx} inside the disk of ITS normal percussion: |P_F|^2 <= (mu_{c_idx} P_N[{c_idx}])^2", pf @ pf, (sysm.mus[c_idx] * PN[jn]) ** 2)
+                    f0 += nf
+            k.prove("every active friction direction is projected", f0 == nFa)
+
+    return c
+
+
+for _layout, _active in (((0, 2), (0, 1)), ((2, 2), (1,)), ((1, 0, 2), (0, 1, 2)), ((1, 0, 2), (1, 2))):
+    contract("C18", f"Moreau.prox[contacts {_layout}, active {_active}]", samples=0, replayable=False, timeout=60, max_paths=400, tiers=("quick", "thorough") if len(_layout) == 2 else ("thorough",))(_moreau_prox_multi(_layout, _active))
